@@ -24,7 +24,7 @@ RT = 1e-8
 
 
 def bounds(tier):
-    return {"expressions": "quick: one expression per (combinator kind, option, child class) at depth<=1; thorough: all at depth<=2", "inputs_per_method": 4, "distributions": "10 named families + mixture + 8 factory configs x invert x cond",
+    return {"expressions": "quick: every leaf class + two children per (combinator, semantic option) at depth<=1; thorough: all at depth<=2", "inputs_per_method": 4, "distributions": "10 named families + mixture + 8 factory configs x invert x cond",
             "exhaustive_within_bounds": True}
 
 
@@ -38,8 +38,18 @@ def enumerate_cases(tier, seed):
     specs, _ = g.enumerate_exprs(tier)
     maxd = 1 if tier == "quick" else 2
     sel = [s for s in specs if g.info(s).depth <= maxd]
-    if tier == "quick":  # one expression per (combinator kind, semantic option, child class)
-        sel = g._one_per_kind(sel)
+    if tier == "quick":
+        # tracing failures are per class: every leaf class, plus for every (combinator, semantic option) two different children
+        seen, keep = {}, []
+        for s_ in g._one_per_kind(sel):
+            if "c" not in s_:
+                keep.append(s_)
+                continue
+            key = (s_["k"], s_.get("mode"), s_.get("axis"), s_.get("cond_axis"), (s_.get("idx") or {}).get("t"))
+            seen[key] = seen.get(key, 0) + 1
+            if seen[key] <= 2:
+                keep.append(s_)
+        sel = keep
     cases = [{"id": "expr|" + g.canon(s), "leg": "expr", "spec": s, "x64": True, "tier": tier, "seed": seed} for s in sel]
     for d in DISTS:
         cases.append({"id": f"dist|{d}", "leg": "dist", "dist": d, "x64": True, "tier": tier, "seed": seed})
